@@ -6,6 +6,7 @@ import (
 	"net/http"
 	"net/http/httptest"
 	"os"
+	"strings"
 	"testing"
 
 	grpcmw "goa.design/goa/v3/grpc/middleware"
@@ -65,7 +66,9 @@ func traceRequestGen(t *rapid.T, proto string) traceRequest {
 	return r
 }
 
-func (r traceRequest) wire() wireTrace { return wireTrace{Trace: r.Trace.Value, Parent: r.Parent.Value} }
+func (r traceRequest) wire() wireTrace {
+	return wireTrace{Trace: r.Trace.Value, Parent: r.Parent.Value}
+}
 
 // traceServer sends requests through one instance of a trace middleware.
 type traceServer struct {
@@ -224,6 +227,9 @@ func TestSamplingExact(t *testing.T) {
 			{"percent-0", traceSpec{Sampling: "percent", Percent: 0}, false},
 			{"percent-100", traceSpec{Sampling: "percent", Percent: 100}, true},
 			{"default", traceSpec{Sampling: "default"}, true},
+			// SampleSize without MaxSamplingRate changes nothing
+			{"percent-0+size", traceSpec{Sampling: "percent+size", Percent: 0, Size: 1000}, false},
+			{"percent-100+size", traceSpec{Sampling: "percent+size", Percent: 100, Size: 1}, true},
 		} {
 			stats.CaseSample(fmt.Sprintf("sampling|%s|%s", proto, c.name), false, map[string]any{"test": "sampling-exact", "variant": proto, "case": c.name, "draws": n})
 			stats.ClassN("sampling-draws:"+c.name, int64(n))
@@ -253,7 +259,7 @@ func TestSamplingExact(t *testing.T) {
 					}
 				}
 			}
-			if c.name == "percent-0" {
+			if strings.HasPrefix(c.name, "percent-0") {
 				// an inbound trace ID bypasses sampling
 				for i := 0; i < n/10; i++ {
 					in := fmt.Sprintf("in-%d", i)
